@@ -16,7 +16,7 @@ func init() {
 	register(&Prop{ID: "C09", Run: runC09,
 		Technique: "static analysis: constant / value-flow agreement of the tick arithmetic and the cron parser's granularity, dominance guards of start / stop / invoke, enum table of entry kinds, must-pass-through of error isolation and lock release in the directory loaders (go/ssa)",
 		Decided: []string{
-			"a tick at t reads entries as Next(t+c) with a constant -60s ≤ c < 0 and invokes an entry only when its Next is not after t; a `break` on the first future entry is preceded by sorting on Next; the next tick is computed from the previous tick (not from the wall clock) as +1 minute truncated to the minute; the cron parser has no seconds field (C09.tick)",
+			"a tick at t reads entries as Next(t+c) with a constant -60s ≤ c < 0 and invokes an entry only when its Next is not after t, and every entry that is due: besides the due test, the loop bound and nil tests the launch depends on nothing that varies from entry to entry, and every path of a due iteration reaches it; a `break` on the first future entry is preceded by sorting on Next; the next tick is computed from the previous tick (not from the wall clock) as +1 minute truncated to the minute; the cron parser has no seconds field (C09.tick)",
 			"the start guard: not running, and last start truncated to the minute before the scheduled minute (C09.start-guard); stop only when running, restart unconditionally (C09.stop-guard)",
 			"entries built from Schedule / StopSchedule / RestartSchedule carry the matching kind, Invoke maps each kind to the same-named job method, suspended DAGs contribute no entry (C09.entry-table); the suspend flag is looked up with the key it is written with: the file id derived from the definition's Location, never DAG.Name (C09.suspend-key)",
 			"a file that fails to load neither ends directory initialisation nor the watcher loop, and the watcher releases its mutex on every way round the loop (C09.bad-file-isolation); the metadata loader is panic-free for decoded pointers (C13, shared obligation evaluated there)",
@@ -150,6 +150,118 @@ func c09Tick(e *Env) {
 			// break on the first future entry needs the entries sorted by Next
 			loops := ir.Loops(run)
 			l := ir.InnermostLoop(loops, site.Block())
+			if l != nil {
+				// every due entry is invoked: besides the due test and the loop's own
+				// bound, the launch depends on nothing that varies from entry to entry
+				// (a lookup in a set filled by the loop, a filter on the entry's kind)
+				var extra []string
+				isDueDirect := func(lt ir.NLit) bool {
+					if lt.Kind != "val" {
+						return false
+					}
+					c, isC := ir.Resolve(lt.V).(*ssa.Call)
+					return isC && ir.IsCallTo(&c.Call, "(time.Time).After", "(time.Time).Before")
+				}
+				// the due test itself, or a predicate of the package that is one (`e.isDue(tick)`)
+				isDue := func(lt ir.NLit) bool {
+					if isDueDirect(lt) {
+						return true
+					}
+					if lt.Kind != "val" {
+						return false
+					}
+					c, isC := ir.Resolve(lt.V).(*ssa.Call)
+					if !isC || c.Call.StaticCallee() == nil || !e.P.Funcs[c.Call.StaticCallee()] {
+						return false
+					}
+					all, nAlt := true, 0
+					e.ways([]ir.NLit{lt}, func(alt []ir.NLit) {
+						nAlt++
+						found := false
+						for _, x := range alt {
+							if isDueDirect(x) {
+								found = true
+							}
+						}
+						if !found {
+							all = false
+						}
+					})
+					return all && nAlt > 0
+				}
+				var variant func(v ssa.Value, d int) bool
+				variant = func(v ssa.Value, d int) bool {
+					if v == nil || d > 6 {
+						return false
+					}
+					in, isIn := v.(ssa.Instruction)
+					if !isIn || in.Block() == nil || in.Parent() != run {
+						return false
+					}
+					return l.Blocks[in.Block()]
+				}
+				for _, lt := range lits {
+					if isDue(lt) {
+						continue
+					}
+					switch lt.Kind {
+					case "cmp":
+						// the loop's bound: index < len
+						if isLoopCounter(lt.X, l) || isLoopCounter(lt.Y, l) {
+							continue
+						}
+						if ir.IsNilConst(lt.Y) || ir.IsNilConst(lt.X) {
+							continue // an entry without a job cannot be invoked at all
+						}
+						if variant(ir.Resolve(lt.X), 0) || variant(ir.Resolve(lt.Y), 0) {
+							extra = append(extra, strings.Join(e.RenderN([]ir.NLit{lt}), ""))
+						}
+					case "val":
+						v := ir.Resolve(lt.V)
+						if ex, isEx := v.(*ssa.Extract); isEx {
+							if _, isNext := ex.Tuple.(*ssa.Next); isNext {
+								continue // the range's own ok
+							}
+						}
+						if variant(v, 0) {
+							extra = append(extra, strings.Join(e.RenderN([]ir.NLit{lt}), ""))
+						}
+					}
+				}
+				// ... and once the due test has passed, every path of that iteration
+				// reaches the launch (a `continue` behind a join is not a dominating condition)
+				for _, lt := range lits {
+					if !isDue(lt) || lt.Src.If == nil || !l.Blocks[lt.Src.If.Block()] {
+						continue
+					}
+					k := 1
+					if lt.Src.Pol {
+						k = 0
+					}
+					bad, _ := ir.Bypass(nil, lt.Src.If.Block().Succs[k], ir.PathQuery{
+						Stop: func(in ssa.Instruction) bool { return in == site },
+						Bad: func(in ssa.Instruction) bool {
+							b := in.Block()
+							if in != b.Instrs[len(b.Instrs)-1] {
+								return false
+							}
+							if ir.IsReturn(in) {
+								return true
+							}
+							for _, sx := range b.Succs {
+								if sx == l.Header || !l.Blocks[sx] {
+									return true
+								}
+							}
+							return false
+						}})
+					if bad != nil {
+						extra = append(extra, "the iteration of a due entry can end at "+e.InstrPos(bad)+" without the launch")
+					}
+				}
+				r.Check(len(extra) == 0, "run: every due entry is invoked (the launch depends only on the entry's time)", e.InstrPos(site),
+					"an entry whose time has come is launched only under a further per-entry condition: due operations are dropped (two schedules of one workflow firing in the same minute, a stop and a start of the same tick), although each is a scheduled minute that must run exactly once", extra...)
+			}
 			if l != nil {
 				breaks := false
 				for b := range l.Blocks {
@@ -665,6 +777,20 @@ func c09StartGuard(e *Env) {
 	_, ss := e.EnumOf(schedRel, "Status")
 	running := ConstVal(ss, "StatusRunning")
 	n := 0
+	// the scheduled minute: the job's time field (by type; `Next` today)
+	isNext := func(v ssa.Value) bool {
+		if e.IsFieldRead(v, nil, "Next") {
+			return true
+		}
+		if ir.NamedType(v.Type()) != "time.Time" || fn.Signature.Recv() == nil {
+			return false
+		}
+		p, ok := e.pathThroughParams(v)
+		if !ok || len(p.Fields) != 1 {
+			return false
+		}
+		return ir.NamedType(p.Root.Type()) == ir.NamedType(fn.Signature.Recv().Type())
+	}
 	for _, ci := range ir.CallsIn(fn, func(c *ssa.CallCommon) bool { return c.IsInvoke() && c.Method.Name() == "Start" }) {
 		n++
 		lits := e.DCS(ci)
@@ -715,20 +841,24 @@ func c09StartGuard(e *Env) {
 					for _, l := range lits {
 						if l.Kind == "val" && !l.Pol {
 							if c, isC := ir.Resolve(l.V).(*ssa.Call); isC {
-								if ir.IsCallTo(&c.Call, "(time.Time).After") && e.IsFieldRead(c.Call.Args[1], nil, "Next") && truncatedToMinute(c.Call.Args[0]) {
+								if ir.IsCallTo(&c.Call, "(time.Time).After") && isNext(c.Call.Args[1]) && truncatedToMinute(c.Call.Args[0]) {
 									notAfter = true
 								}
-								if ir.IsCallTo(&c.Call, "(time.Time).Before") && e.IsFieldRead(c.Call.Args[0], nil, "Next") && truncatedToMinute(c.Call.Args[1]) {
+								if ir.IsCallTo(&c.Call, "(time.Time).Before") && isNext(c.Call.Args[0]) && truncatedToMinute(c.Call.Args[1]) {
 									notAfter = true
 								}
-								if ir.IsCallTo(&c.Call, "(time.Time).Equal") && (e.IsFieldRead(c.Call.Args[0], nil, "Next") && truncatedToMinute(c.Call.Args[1]) || e.IsFieldRead(c.Call.Args[1], nil, "Next") && truncatedToMinute(c.Call.Args[0])) {
+								if ir.IsCallTo(&c.Call, "(time.Time).Equal") && (isNext(c.Call.Args[0]) && truncatedToMinute(c.Call.Args[1]) || isNext(c.Call.Args[1]) && truncatedToMinute(c.Call.Args[0])) {
 									notEqual = true
 								}
 							}
 						}
 						if l.Kind == "val" && l.Pol {
 							// positive form: last.Before(Next)
-							if c, isC := ir.Resolve(l.V).(*ssa.Call); isC && ir.IsCallTo(&c.Call, "(time.Time).Before") && e.IsFieldRead(c.Call.Args[1], nil, "Next") && truncatedToMinute(c.Call.Args[0]) {
+							if c, isC := ir.Resolve(l.V).(*ssa.Call); isC && ir.IsCallTo(&c.Call, "(time.Time).Before") && isNext(c.Call.Args[1]) && truncatedToMinute(c.Call.Args[0]) {
+								notAfter, notEqual = true, true
+							}
+							// the same from the schedule's side: Next.After(last)
+							if c, isC := ir.Resolve(l.V).(*ssa.Call); isC && ir.IsCallTo(&c.Call, "(time.Time).After") && isNext(c.Call.Args[0]) && truncatedToMinute(c.Call.Args[1]) {
 								notAfter, notEqual = true, true
 							}
 						}
@@ -802,4 +932,27 @@ func (e *Env) daemonJobMethod(name string) *ssa.Function {
 func mustPath(e *Env, v ssa.Value) ir.Path {
 	p, _ := e.C.PathOf(v)
 	return p
+}
+
+// isLoopCounter: v is the loop's own counter: a φ of the loop header, possibly
+// advanced by a constant (`i`, `i + 1`).
+func isLoopCounter(v ssa.Value, l *ir.Loop) bool {
+	v = ir.Resolve(v)
+	for d := 0; d < 3; d++ {
+		switch x := v.(type) {
+		case *ssa.Phi:
+			return x.Block() == l.Header
+		case *ssa.BinOp:
+			if _, isC := x.Y.(*ssa.Const); isC {
+				v = ir.Resolve(x.X)
+				continue
+			}
+			if _, isC := x.X.(*ssa.Const); isC {
+				v = ir.Resolve(x.Y)
+				continue
+			}
+		}
+		return false
+	}
+	return false
 }
